@@ -966,3 +966,33 @@ Lemma branch_demo :
     (JObj [(s_oneOf, JArr [JObj [(s_example, JInt 1)]; JObj [(s_examples, JArr [JInt 2; JInt 3])]])])
   = XOk [JInt 1; JInt 2; JInt 3].
 Proof. reflexivity. Qed.
+
+(* ------------------------------------------------------------------ *)
+(* the examples lookup by (name, location)                             *)
+(* ------------------------------------------------------------------ *)
+Lemma lookup_by_location pre p post name loc field x :
+  forallb (fun q => has_name q && negb (name_is name q && in_is loc q)) pre = true ->
+  name_is name p = true -> in_is loc p = true -> obj_get field p = Some x ->
+  find_param_examples (pre ++ p :: post) name loc field = Ok x.
+Proof.
+  intros Hpre Hn Hl Hf. induction pre as [|q pre IH]; cbn [app find_param_examples].
+  - assert (Hh : has_name p = true).
+    { unfold name_is in Hn. unfold has_name. destruct (obj_get s_name p); [reflexivity | discriminate]. }
+    rewrite Hh, Hn, Hl, Hf. reflexivity.
+  - cbn [forallb] in Hpre. apply andb_true_iff in Hpre. destruct Hpre as [Hq Hpre].
+    apply andb_true_iff in Hq. destruct Hq as [Hh Hm]. apply negb_true_iff in Hm.
+    rewrite Hh, Hm. apply IH. exact Hpre.
+Qed.
+
+(* header id without examples listed before query id with examples *)
+Definition s_id : str := [105;100]%N.
+Definition s_header : str := [104;101;97;100;101;114]%N.
+Definition p_header_id : json := JObj [(s_name, JStr s_id); (s_in, JStr s_header)].
+Definition d_examples : json := JObj [([97]%N, JObj [(s_value, JStr [81;49]%N)])].
+Definition p_query_id : json := JObj [(s_name, JStr s_id); (s_in, JStr s_query); (s_examples, d_examples)].
+
+Lemma lookup_by_name_only_refuted :
+  find_param_examples_by_name_only [p_header_id; p_query_id] s_id s_examples = Err Raised /\
+  find_param_examples [p_header_id; p_query_id] s_id s_query s_examples = Ok d_examples /\
+  extract_inner_examples d_examples d_examples = XOk [JStr [81;49]%N].
+Proof. repeat split; reflexivity. Qed.
